@@ -10,6 +10,8 @@
 //!   * request / response parsers consumed at most 4096 bytes of the stream;
 //!   * an accepted value re-serialises (real serialiser) to bytes that parse to an equal
 //!     value which re-serialises to identical bytes.
+//!   * (framing, an extension of the statement) an accepted record consumed exactly its
+//!     4-byte header plus the declared body length.
 
 use std::future::Future;
 use std::pin::pin;
@@ -255,6 +257,35 @@ pub fn base_corpus() -> Vec<Msg> {
         b.extend(ser_rec(&Rec::EndOfMessage));
         out.push(m(&format!("single-record-{i}"), b));
     }
+    // --- the same kinds of messages hand-built with the simulator's own encoder, so that the
+    // corpus does not depend on the serialiser under test for any record kind ---
+    out.push(m("raw-resp-full", {
+        let mut r = vec![raw::rec_u16s(CRIT | 1, &[0]), raw::rec_u16s(CRIT | 4, &[15])];
+        for c in &cookies15 {
+            r.push(RawRec::new(raw::T_COOKIE, c));
+        }
+        r.push(RawRec::new(CRIT | raw::T_SERVER, b"ntp.example.org"));
+        r.push(RawRec::new(CRIT | raw::T_PORT, &[0x11, 0x6c]));
+        r.push(RawRec::new(raw::T_KEEPALIVE, &[]));
+        r.push(raw::eom());
+        raw::encode_all(&r)
+    }));
+    out.push(m("raw-resp-v5-512-one-cookie", raw::encode_all(&[raw::rec_u16s(CRIT | 1, &[0x8001]), raw::rec_u16s(CRIT | 4, &[17]), RawRec::new(raw::T_COOKIE, &cookies17[0]), raw::eom()])));
+    out.push(m("raw-req-ke", raw::encode_all(&[raw::rec_u16s(CRIT | 1, &[0x8001, 0]), raw::rec_u16s(CRIT | 4, &[17, 15]), RawRec::new(raw::T_DENY, b"deny.example"), raw::eom()])));
+    out.push(m("raw-req-fixed-keep", {
+        let mut keys = k32a.clone();
+        keys.extend(&k32b);
+        raw::encode_all(&[RawRec::new(raw::T_AUTH, b"tokA"), RawRec::new(CRIT | raw::T_FIXED_KEY, &keys), raw::rec_u16s(CRIT | 1, &[0]), raw::rec_u16s(CRIT | 4, &[15]), RawRec::new(raw::T_KEEPALIVE, &[]), raw::eom()])
+    }));
+    out.push(m("raw-req-fixed-512", {
+        let mut keys = k64a.clone();
+        keys.extend(&k64b);
+        raw::encode_all(&[RawRec::new(raw::T_AUTH, b"x"), RawRec::new(CRIT | raw::T_FIXED_KEY, &keys), raw::rec_u16s(CRIT | 1, &[0x8001]), raw::rec_u16s(CRIT | 4, &[17]), raw::eom()])
+    }));
+    out.push(m("raw-req-support-keep", raw::encode_all(&[RawRec::new(raw::T_AUTH, b"tokA"), RawRec::new(CRIT | raw::T_SUP_PROTOCOLS, &[]), RawRec::new(CRIT | raw::T_SUP_ALGORITHMS, &[]), RawRec::new(raw::T_KEEPALIVE, &[]), raw::eom()])));
+    out.push(m("raw-resp-supports-keep", raw::encode_all(&[RawRec::new(CRIT | raw::T_SUP_ALGORITHMS, &[0, 15, 0, 32, 0, 17, 0, 64]), raw::rec_u16s(CRIT | raw::T_SUP_PROTOCOLS, &[0, 0x8001]), RawRec::new(raw::T_KEEPALIVE, &[]), raw::eom()])));
+    out.push(m("raw-resp-error-bad-request", raw::encode_all(&[raw::rec_u16s(CRIT | raw::T_ERROR, &[1]), raw::eom()])));
+    out.push(m("raw-resp-warning", raw::encode_all(&[raw::rec_u16s(CRIT | raw::T_WARNING, &[9]), raw::eom()])));
     // --- hand-built oddities (raw encoder) ---
     out.push(m("eom-with-body", raw::encode_all(&[RawRec::new(CRIT, b"body-in-end-of-message")])));
     out.push(m("keepalive-with-body", raw::encode_all(&[RawRec::new(raw::T_KEEPALIVE, &[9; 600]), raw::eom()])));
@@ -262,6 +293,7 @@ pub fn base_corpus() -> Vec<Msg> {
     out.push(m("critical-cookie", raw::encode_all(&[raw::rec_u16s(CRIT | 1, &[0]), raw::rec_u16s(CRIT | 4, &[15]), RawRec::new(CRIT | raw::T_COOKIE, &cookies15[0]), raw::eom()])));
     out.push(m("odd-length-lists", raw::encode_all(&[RawRec::new(CRIT | 1, &[0, 0, 1]), RawRec::new(CRIT | 4, &[0]), raw::eom()])));
     out.push(m("odd-fixed-key", raw::encode_all(&[RawRec::new(raw::T_AUTH, b"tokA"), RawRec::new(CRIT | raw::T_FIXED_KEY, &[7; 65]), raw::rec_u16s(CRIT | 1, &[0]), raw::rec_u16s(CRIT | 4, &[15]), raw::eom()])));
+    out.push(m("odd-fixed-key-first", raw::encode_all(&[RawRec::new(CRIT | raw::T_FIXED_KEY, &[7; 65]), RawRec::new(raw::T_AUTH, b"tokA"), raw::rec_u16s(CRIT | 1, &[0]), raw::rec_u16s(CRIT | 4, &[15]), raw::eom()])));
     out.push(m("non-utf8-strings", raw::encode_all(&[RawRec::new(CRIT | raw::T_SERVER, &[0xff, 0xfe, 0x80]), RawRec::new(raw::T_AUTH, &[0xc3, 0x28]), RawRec::new(raw::T_DENY, &[0xe2, 0x82]), raw::eom()])));
     out.push(m("multibyte-utf8-strings", raw::encode_all(&[RawRec::new(raw::T_AUTH, "tök€n".as_bytes()), RawRec::new(CRIT | raw::T_SUP_PROTOCOLS, &[]), raw::eom()])));
     out.push(m("empty-stream", vec![]));
@@ -465,7 +497,7 @@ fn mutate(base: &Msg, bi: usize, vi: u64) -> Msg {
 }
 
 pub fn variants_per_message(thorough: bool) -> u64 {
-    if thorough { 40 } else { 4 }
+    if thorough { 40 } else { 8 }
 }
 
 /// Number of base messages.
@@ -585,6 +617,19 @@ fn deliver(parser: u64, msg: &Msg, class: u64, cut: Cut, endless_mode: bool) -> 
             None
         }
     };
+    if parser == 0 && msg.bytes.len() >= 4 {
+        if let Some(Outcome::Accepted(_)) = &outcome {
+            // framing: an accepted record is its 4-byte header plus exactly the declared body
+            let declared = 4 + u16::from_be_bytes([msg.bytes[2], msg.bytes[3]]) as usize;
+            check!(
+                "C30",
+                "c30-accepted-record-consumes-exactly-its-declared-length",
+                consumed == declared,
+                "{}: the record parser accepted a record after consuming {consumed} bytes, its header declares {declared}",
+                what()
+            );
+        }
+    }
     if parser != 0 {
         check!(
             "C30",
